@@ -300,15 +300,20 @@ def run_hist():
                 tag = '%s,n=%d,full_output=%s:' % (method, n, full)
                 with warnings.catch_warnings():
                     warnings.simplefilter('ignore')
-                    pa = explore(lambda: (d(x, 'A', 1, key='K'), len(f.calls), d(x, 'B', 2, key='L'))[1:], pre=nom_positive_facts(list(x)), max_paths=8)
+                    pa = explore(lambda: (d(x, 'A', 1, key='K'), len(f.calls), d(x, 'B', 2, key='L'), len(f.calls), d(x, 'B', 2, key='M'))[1:], pre=nom_positive_facts(list(x)), max_paths=8)
                     pb = explore(lambda: d2(x, 'B', 2, key='L'), pre=nom_positive_facts(list(x)), max_paths=8)
                 ok = len(pa) == 1 and pa[0].exc is None and len(pb) == 1 and pb[0].exc is None
                 solve.fact(tag + 'single-path-no-exception', ok, note=str([repr(p.exc)[:150] for p in pa + pb if p.exc][:1]))
                 if not ok:
                     continue
-                n1, second = pa[0].value
+                n1, second, n2, third = pa[0].value
                 fresh = pb[0].value
-                calls2 = f.calls[n1:]
+                calls2 = f.calls[n1:n2]
+                # third call: same positional arguments, same keyword NAMES, another keyword value
+                calls3 = f.calls[n2:]
+                solve.fact(tag + 'third-call(same-names,other-keyword-value)-evaluates-f-with-its-own-arguments',
+                           len(calls3) == len(f2.calls) and len(calls3) > 0 and all(a == ('B', 2) and k == dict(key='M') for a, k in calls3),
+                           note=str((n2, len(calls3), calls3[:1]))[:200])
                 solve.fact(tag + 'second-call-evaluates-f-as-often-as-a-fresh-object-and-always-with-its-own-arguments',
                            len(calls2) == len(f2.calls) and len(calls2) > 0 and all(a == ('B', 2) and k == dict(key='L') for a, k in calls2),
                            note=str((n1, len(calls2), len(f2.calls), calls2[:1]))[:200])
@@ -337,6 +342,8 @@ def replay_case(ob):
     import re
     if ob['name'].startswith('complex-step-concrete/'):
         return dict(kind='C08.cconc')
+    if ob['name'].startswith('call-history/'):
+        return dict(kind='C08.elementwise', method='central', n=1, order=2, history_only=True)
     mm = re.search(r'deriv\[(\w+),n=(\d+),order=(\d+)\]', ob['name'])
     if mm:
         return dict(kind='C08.elementwise', method=mm.group(1), n=int(mm.group(2)), order=int(mm.group(3)))
